@@ -262,3 +262,22 @@ CHECKS["C13"] = {
     "outside": ["truncation inside mediacommon's parsers", "MPEG-TS payloads", "busy-loop freedom beyond: every loop iteration consumes a queue element or blocks (engine deadlock / step bound)"],
     "runs": [{"name": "run.cli.fmp4.malformed", "files": CLIP, "fn": "VerifH_C13_fmp4", "workers": 16, "reach": ["ran"], "budget_quick": 900, "budget_thorough": 7200, "qtimeout": 10000}],
 }
+
+C12F = [G + "c12_client.go"] + CLIP
+
+
+def c12run(name, multi, pq, pt):
+    return {"name": name, "files": C12F, "fn": "VerifH_C12_client", "workers": 16, "params": {"MULTI": multi}, "preempt_quick": pq, "preempt_thorough": pt,
+            "reach": ["wait-yielded", "eos", "end"], "budget_quick": 900, "budget_thorough": 7200, "native": False}
+
+
+CHECKS["C12"] = {
+    "technique": "the whole real Client (Start, run, routine pool, downloaders, fMP4 processors, queues, time converter) as engine threads against a scripted server; "
+                 "Close at a symbolic scheduling point, one fault at a symbolic request index; deadlock / live-thread / late-callback checks at quiescence",
+    "bounds": {"quick": {"streams": "media playlist (video) and multivariant playlist with an audio rendition, VOD, 1..2 segments each", "faults": "status 500 / transport error / body stalling until cancelled at any request index, or none",
+                         "OnTracks": "succeeds or returns an error", "Close": "not called, or called (twice) after a symbolic number of scheduling steps", "preemptions": 1},
+               "thorough": {"preemptions": 2}},
+    "assumptions": CHECKS["C10"]["assumptions"] + ["net/http replaced by a scripted responder (goroutines inside net/http are outside the model)", "cooperative scheduler + bounded symbolic preemption at synchronisation points"],
+    "outside": ["MPEG-TS processors", "live playlists and pacing sleeps (time.After fires immediately)", "goroutines inside net/http"],
+    "runs": [c12run("conc.client.media", 0, 1, 2), c12run("conc.client.multivariant", 1, 1, 2)],
+}
